@@ -74,7 +74,7 @@ RULE = (
 )
 EXHAUSTIVE = {
     "quick": "every domain of the regenerated lists x 10 host variants, each with one seeded decoy combination; the site-pattern domains additionally x every decoy dimension varied alone (7 userinfo + 3 ports + 13 paths + 4 queries + 4 fragments)",
-    "thorough": "every domain of the regenerated lists x 10 host variants x 6 seeded decoy combinations; the site-pattern domains x the full product 7 userinfo x 13 paths x 4 queries x 4 fragments (port seeded)",
+    "thorough": "every domain of the regenerated lists x 10 host variants x 6 seeded decoy combinations; the site-pattern domains in the variants as-is / upper / glued / foreign-suffix / l.-prefixed x the full product 7 userinfo x 13 paths x 4 queries x 4 fragments (port seeded), in the other variants every decoy dimension varied alone",
 }
 TRUSTED = [
     "Lean 4 kernel; axioms of every listed theorem audited to be within {propext, Classical.choice, Quot.sound}",
@@ -276,6 +276,7 @@ PATHS = ["", "/", "/x.facebook.com/", "/@t.me", "/bit.ly/abc", "/abc123", "/abcd
 QUERIES = ["", "u=bit.ly", "url=http://t.me/x", "x=1&y=instagram.com"]
 FRAGS = ["", "youtube.com", "!/twitter.com", "@fb.me"]
 VARIANTS = ["asis", "upper", "sub", "glue", "tailglue", "foreign", "lprefix", "nodot", "puny", "deep"]
+FULL_PRODUCT_VARIANTS = ["asis", "upper", "glue", "foreign", "lprefix"]
 TLDS_FOR_WILD = ["com", "fr", "net"]
 GLUE = ["not", "a", "netfli", "cha", "my", "xx", "e"]
 FOREIGN = [".evil.fr", ".com", ".example.org", ".co"]
@@ -374,7 +375,7 @@ def cases(rng, tier):
     for tag, dom in sd:
         for v in VARIANTS:
             host = variant(rng, dom, v)
-            if tier == "quick":
+            if tier == "quick" or v not in FULL_PRODUCT_VARIANTS:
                 for key, vals in (("ui", UIS), ("port", PORTS), ("path", PATHS), ("q", QUERIES), ("f", FRAGS)):
                     for x in vals:
                         dec = dict(NODEC)
